@@ -476,7 +476,81 @@ func (fr *Frame) lookupLocal(name string, h *ssa.BasicBlock) (Val, bool) {
 			}
 		}
 	}
+	if h != nil && name == "rangeindex" {
+		// the mirror case: a loop clause written for a `range` loop, after the loop was rewritten as an index loop.
+		// The hidden index of the range loop (index of the element handled last, -1 before the first) is the
+		// induction variable of the index loop minus one; the induction variable is the unique integer phi of the
+		// header that the back edge increments by one.
+		var ind *ssa.Phi
+		n := 0
+		for _, in := range h.Instrs {
+			p, ok := in.(*ssa.Phi)
+			if !ok {
+				break
+			}
+			for _, e := range p.Edges {
+				if bo, ok := e.(*ssa.BinOp); ok && bo.Op == token.ADD && bo.X == ssa.Value(p) {
+					if c, ok := bo.Y.(*ssa.Const); ok && c.Value != nil && c.Value.ExactString() == "1" {
+						ind = p
+						n++
+					}
+				}
+			}
+		}
+		if n == 1 {
+			var pv Val
+			found := false
+			if fr.useHead {
+				if li := fr.loops[h]; li != nil {
+					if v, ok := li.headVals[ind]; ok {
+						pv, found = v, true
+					}
+				}
+			}
+			if !found {
+				if v, ok := fr.vals[ind]; ok {
+					pv, found = v, true
+				}
+			}
+			if found && len(pv.L) == 1 {
+				return Val{T: pv.T, L: []string{"(- " + pv.L[0] + " 1)"}}, true
+			}
+		}
+	}
 	return Val{}, false
+}
+
+// rangeCount: the iteration count (hidden index + 1) of the range loop with header h, if h is one
+func (fr *Frame) rangeCount(h *ssa.BasicBlock) (Val, bool) {
+	for _, in := range h.Instrs {
+		p, ok := in.(*ssa.Phi)
+		if !ok || p.Comment != "rangeindex" {
+			continue
+		}
+		if fr.useHead {
+			if li := fr.loops[h]; li != nil {
+				if v, ok := li.headVals[p]; ok && len(v.L) == 1 {
+					return Val{T: v.T, L: []string{"(+ " + v.L[0] + " 1)"}}, true
+				}
+			}
+		}
+		if v, ok := fr.vals[p]; ok && len(v.L) == 1 {
+			return Val{T: v.T, L: []string{"(+ " + v.L[0] + " 1)"}}, true
+		}
+	}
+	return Val{}, false
+}
+
+func isPlainIdent(s string) bool {
+	if s == "" || s == "rangeindex" || s == "rangeslice" {
+		return false
+	}
+	for i, r := range s {
+		if !(r == '_' || (r >= 'a' && r <= 'z') || (r >= 'A' && r <= 'Z') || (i > 0 && r >= '0' && r <= '9')) {
+			return false
+		}
+	}
+	return true
 }
 
 // ---------------------------------------------------------------------------
